@@ -106,6 +106,9 @@ def job(shard, nshards, seed, tier, exes, plan):
         elif sc == "disjoint":
             if int(res["mismatches"]):
                 sh.violation("C18/disjoint/interference", "threads working on disjoint trees saw %s wrong results" % res["mismatches"], dict(rep0, result=res))
+        elif sc == "mutate":
+            if int(res["worker_freed"]) or int(res["final_put"]) != 1 or int(res["callbacks_before"]) != int(res["expected_before"]) or int(res["callbacks_at_final_put"]) != 1:
+                sh.violation("C18/mutate/destructor-accounting", "owner re-registers the destructor while others get/put: %s" % res, dict(rep0, result=res))
         elif sc == "readers":
             if int(res["read_mismatches"]) or int(res["worker_freed"]) or int(res["final_put"]) != 1 or int(res["callbacks"]) != 1:
                 sh.violation("C18/readers/shared-tree", "readers/holders of a shared tree: %s" % res, dict(rep0, result=res))
@@ -153,6 +156,7 @@ def run(tier, seed):
         # container mode (4th argument 2): all holders but one keep their reference inside an array / object of their own and release the container
         plan.append(("thr", ["release", [2, 3, 4, 8][i % 4], 20000 if q else 200000, 2], None, ""))
     plan += [("tsan", ["release", 2, 3000 if q else 40000, 2], None, ""), ("tsan_ndebug", ["release", 4, 2000 if q else 30000, 2], None, "")]
+    plan += [("tsan", ["mutate", 4, 20000 if q else 200000], None, ""), ("tsan_ndebug", ["mutate", 3, 20000 if q else 200000], None, ""), ("thr", ["mutate", 8, 200000 if q else 2000000], None, "")]
     plan.append(("thr", ["readers", 12, 300000], None, ""))
     for i in range(300 if q else 20000):
         nt = [2, 4, 8, 16][i % 4]
